@@ -2188,6 +2188,142 @@ class _InlinePrivateProcedures(_InlinePrivateGenerators):
         return out
 
 
+def adopt_private_imports(tree, modname, sibling_source):
+    """`from .terminology import _DeferredLoadingMixin, _cache_location` - private functions / classes of a sibling module that this module
+    imports by name are copied into this module (together with the imports and private definitions they need), so that the per module
+    passes below read a shared private helper the same way wherever it is used.  The copy is made only when every global name the
+    definition reads can be bound here exactly as it is bound there: by the same import statement, by a copy of another private
+    definition, or - for a public name of the sibling - by `from <sibling> import <name>`; a name this module binds differently stops it.
+    sibling_source(dotted module name) -> source text or None."""
+    pkg = modname.rsplit(".", 1)[0] if "." in modname else modname
+    here = {}
+    for st in tree.body:
+        if isinstance(st, (ast.FunctionDef, ast.ClassDef)):
+            here[st.name] = ("def", st)
+        elif isinstance(st, (ast.Import, ast.ImportFrom)):
+            for a in st.names:
+                here[(a.asname or a.name).split(".")[0]] = ("import", ast.dump(st) if isinstance(st, ast.Import) else (st.module, st.level, a.name, a.asname))
+        elif isinstance(st, ast.Assign):
+            for t in st.targets:
+                if isinstance(t, ast.Name):
+                    here[t.id] = ("assign", st)
+    out_body = []
+    changed = False
+    for st in tree.body:
+        out_body.append(st)
+        if not (isinstance(st, ast.ImportFrom) and st.module and st.level in (0, 1)):
+            continue
+        priv = [a for a in st.names if a.name.startswith("_") and not a.name.startswith("__") and a.asname in (None, a.name)]
+        if not priv:
+            continue
+        dotted = ("%s.%s" % (pkg, st.module)) if st.level == 1 else st.module
+        text = sibling_source(dotted)
+        if text is None:
+            continue
+        try:
+            sib = ast.parse(text)
+        except SyntaxError:
+            continue
+        there = {}
+        for s2 in sib.body:
+            if isinstance(s2, (ast.FunctionDef, ast.ClassDef)):
+                there[s2.name] = ("def", s2)
+            elif isinstance(s2, (ast.Import, ast.ImportFrom)):
+                for a in s2.names:
+                    there[(a.asname or a.name).split(".")[0]] = ("import", s2, a)
+            elif isinstance(s2, ast.Assign):
+                for t in s2.targets:
+                    if isinstance(t, ast.Name):
+                        there[t.id] = ("assign", s2)
+            elif isinstance(s2, ast.Try):
+                for y in ast.walk(s2):
+                    if isinstance(y, (ast.Import, ast.ImportFrom)):
+                        for a in y.names:
+                            there.setdefault((a.asname or a.name).split(".")[0], ("tryimport", y, a))
+        import builtins as _b
+        adopt, imports, ok = [], [], True
+        todo = [a.name for a in priv]
+        seen = set()
+        while todo and ok:
+            n = todo.pop()
+            if n in seen:
+                continue
+            seen.add(n)
+            kind = there.get(n)
+            if kind is None or kind[0] != "def":
+                ok = False
+                break
+            d = kind[1]
+            adopt.append(d)
+            bound = set()
+            for y in ast.walk(d):
+                if isinstance(y, ast.Name) and isinstance(y.ctx, (ast.Store, ast.Del)):
+                    bound.add(y.id)
+                elif isinstance(y, ast.arg):
+                    bound.add(y.arg)
+                elif isinstance(y, ast.ExceptHandler) and y.name:
+                    bound.add(y.name)
+            for y in ast.walk(d):
+                if not (isinstance(y, ast.Name) and isinstance(y.ctx, ast.Load)) or y.id in bound or hasattr(_b, y.id) or y.id == d.name:
+                    continue
+                src = there.get(y.id)
+                mine = here.get(y.id)
+                if src is None:
+                    ok = False
+                    break
+                if src[0] == "def" and y.id.startswith("_"):
+                    if mine is not None and y.id not in [a.name for a in priv]:
+                        ok = False
+                        break
+                    todo.append(y.id)
+                elif src[0] in ("import", "tryimport"):
+                    a = src[2]
+                    key = ast.dump(src[1]) if isinstance(src[1], ast.Import) else (src[1].module, src[1].level, a.name, a.asname)
+                    if mine is None:
+                        one = copy.deepcopy(src[1])
+                        one.names = [copy.deepcopy(a)]
+                        if isinstance(one, ast.ImportFrom) and one.level == 1 and st.level == 0:
+                            ok = False
+                            break
+                        imports.append((y.id, one))
+                    elif mine[0] != "import" or (src[0] == "import" and isinstance(src[1], ast.ImportFrom) and mine[1] != key):
+                        ok = False
+                        break
+                else:
+                    # a public definition / constant of the sibling: visible here as `from <sibling> import <name>`
+                    if mine is None:
+                        imports.append((y.id, ast.ImportFrom(module=st.module, names=[ast.alias(name=y.id, asname=None)], level=st.level)))
+                    elif not (mine[0] == "import" and isinstance(mine[1], tuple) and mine[1][0] == st.module and mine[1][2] == y.id):
+                        ok = False
+                        break
+            if not ok:
+                break
+        if not ok or not adopt:
+            continue
+        changed = True
+        keep = [a for a in st.names if a not in priv]
+        if keep:
+            st.names = keep
+        else:
+            out_body.pop()
+        done = set()
+        for nm, imp in imports:
+            if nm in done:
+                continue
+            done.add(nm)
+            ast.copy_location(imp, st)
+            out_body.append(imp)
+            here[nm] = ("import", ast.dump(imp) if isinstance(imp, ast.Import) else (imp.module, imp.level, imp.names[0].name, imp.names[0].asname))
+        for d in sorted(adopt, key=lambda x: x.lineno):
+            c = copy.deepcopy(d)
+            out_body.append(c)
+            here[c.name] = ("def", c)
+    if changed:
+        tree.body = out_body
+        ast.fix_missing_locations(tree)
+    return tree
+
+
 _INLINED = []
 _REVIEWED = []
 _PROCEDURES = [__import__('os').environ.get('ODMLSA_PROCEDURES', '1') == '1']
@@ -2229,8 +2365,10 @@ def _drop_dead_private_methods(tree, inlined):
     return tree
 
 
-def normalise(tree):
+def normalise(tree, modname=None, sibling_source=None):
     del _INLINED[:]
+    if modname is not None and sibling_source is not None:
+        tree = adopt_private_imports(tree, modname, sibling_source)
     tree = _lift_closed_local_functions(tree)
     inl = _InlinePrivateConstants(tree)
     if inl.consts:
@@ -2247,4 +2385,11 @@ def normalise(tree):
     ast.fix_missing_locations(tree)
     tree = Normaliser(tree).visit(tree)
     ast.fix_missing_locations(tree)
+    # unrolling a loop over a table of functions makes further helper calls direct (`comparable(x)` -> `_as_it_is(x)`): once more
+    before = len(_INLINED)
+    tree = _InlineExpressionHelpers(tree).visit(tree)
+    if len(_INLINED) != before:
+        ast.fix_missing_locations(tree)
+        tree = Normaliser(tree).visit(tree)
+        ast.fix_missing_locations(tree)
     return tree
